@@ -107,6 +107,24 @@ Proof.
   destruct (wrapper_is_atomic osz Sz ts 1 al F) as [E _]. rewrite E in I. apply Inv_nil_empty; auto.
 Qed.
 
+
+(* ---- DYNAMIC_VSPRINTF on its own: from any ledger, for every oracle, text length and start size ---- *)
+Lemma vsprintf_valid_thm : forall fuel len size al k bs l, Inv bs l ->
+  let r := vs_loop fuel len size al k (nxt l) in
+  safe l (fst (fst (fst r))) /\ Inv (olist (snd (fst (fst r))) ++ bs) (run l (fst (fst (fst r)))).
+Proof.
+  intros fuel len size al k bs l I r. destruct (vs_loop_T fuel len size al k (nxt l) (fun x => count x bs) l) as (S & J & _); auto.
+  split; auto. destruct J as [W J]. split; auto. intros b. rewrite count_app. apply J.
+Qed.
+Lemma vsprintf_failed_leaves_nothing_thm : forall fuel len size al k bs l, Inv bs l ->
+  let r := vs_loop fuel len size al k (nxt l) in snd (fst (fst r)) = None ->
+  safe l (fst (fst (fst r))) /\ forall b, own (run l (fst (fst (fst r)))) b = own l b.
+Proof.
+  intros fuel len size al k bs l I r E. destruct (vsprintf_valid_thm fuel len size al k bs l I) as [S J]. fold r in S, J. rewrite E in J. cbn [olist app] in J.
+  split; auto. destruct I as [_ I], J as [_ J]. intros b. specialize (I b). specialize (J b). rewrite I in J.
+  destruct (own l b), (own (run l (fst (fst (fst r)))) b); simpl in J; auto; discriminate.
+Qed.
+
 (* a concrete run used by the non-vacuity examples: sizes as on x86-64 *)
 Definition sz64 : sizes := mkS 200 72 56 152 40 8 224 48 24 240 32 256 136 136 88 128.
 Definition fail_at (k : nat) : oracle := fun i => negb (Nat.eqb i k).
